@@ -34,7 +34,11 @@ BASE2 = "0ca368f"  # the commit the second refactoring campaign (selftest/benign
 
 BASE3 = "a7bae30"  # third refactoring campaign (selftest/benign/S*.diff)
 
+BASE4 = "a79e858"  # fourth refactoring campaign (selftest/benign/T*.diff)
+
 def benign_base(name):
+    if name.startswith("T"):
+        return BASE4
     if name.startswith("S"):
         return BASE3
     return BASE2 if name.startswith("R") else BASE
